@@ -185,7 +185,7 @@ impl<'a, 'context> FromContext<'a, 'context> for Identifier {
     where
         Self: Sized,
     {
-        match &arg_expr_from_context(ctx).expr {
+        match &arg_expr_from_context(ctx)?.expr {
             Expr::Ident(ident) => Ok(Identifier(ident.clone().into())),
             expr => Err(ExecutionError::UnexpectedType {
                 got: format!("{:?}", expr),
@@ -259,7 +259,7 @@ impl<'a, 'context> FromContext<'a, 'context> for Expression {
     where
         Self: Sized,
     {
-        Ok(arg_expr_from_context(ctx).clone())
+        Ok(arg_expr_from_context(ctx)?.clone())
     }
 }
 
@@ -267,13 +267,17 @@ impl<'a, 'context> FromContext<'a, 'context> for Expression {
 /// (i.e. not resolved). Calling this multiple times will increment the `arg_idx` which will
 /// return subsequent arguments every time.
 ///
-/// Calling this function when there are no more arguments will result in a panic. Since this
-/// function is only ever called within the context of a controlled macro that calls it once
-/// for each argument, this should never happen.
-fn arg_expr_from_context<'a>(ctx: &'a mut FunctionContext) -> &'a Expression {
+/// Calling this function when there are no more arguments is an
+/// [`ExecutionError::InvalidArgumentCount`] error, like for resolved arguments.
+fn arg_expr_from_context<'a>(
+    ctx: &'a mut FunctionContext,
+) -> Result<&'a Expression, ExecutionError> {
     let idx = ctx.arg_idx;
     ctx.arg_idx += 1;
-    &ctx.args[idx]
+    let actual = ctx.args.len();
+    ctx.args
+        .get(idx)
+        .ok_or(ExecutionError::invalid_argument_count(idx + 1, actual))
 }
 
 /// Returns the next argument specified by the context's `arg_idx` field as after resolving
